@@ -132,6 +132,8 @@ def load_instrumented(root="/repo"):
                         setattr(val, cattr, w)
                         wrapped.append("%s.%s.%s" % (name, val.__name__, cattr))
     _wrap_value_subclasses(mods)
+    from . import summaries
+    summaries.install(mods)
     c = Copy(mods, True, root)
     c.wrapped_tables = sorted(set(wrapped))
     return c
